@@ -64,9 +64,18 @@ static void check(int start, int num)
 #endif
     VASSERTM(argc == K - removed, "delete: *argc reduced by the number of strings removed");
     parsec_argv_free(v);
+#if K >= 3
     if (removed >= 1 && start >= 1 && start + removed < K) VWITNESS("delete in the middle");
+#endif
+#if K >= 1 && !defined(KF_EXCLUDE_C39_DELETE_ARGC)
     if (in_class && removed >= 1) VWITNESS("delete running beyond the end");
+#endif
+#if K >= 1
     if (bad) VWITNESS("delete with a negative argument refused");
+    if (removed == 1 && start == 0) VWITNESS("delete the first string");
+#else
+    if (start == 0 && num == 1 && rc == PARSEC_SUCCESS) VWITNESS("delete on a NULL vector is a no-op");
+#endif
 }
 #else
 static void check(int start, int m)      /* m: -1 = NULL source, else number of source strings */
@@ -99,9 +108,15 @@ static void check(int start, int m)      /* m: -1 = NULL source, else number of 
     }
     VASSERTM(b0[0] == 't' && b0[1] == '0' && b1[1] == '1', "insert: source unchanged");
     parsec_argv_free(v);
+#if K >= 2
     if (ins >= 1 && at >= 1 && at < K) VWITNESS("insert in the middle");
+#endif
+#if K >= 1
     if (ins >= 1 && start > K) VWITNESS("insert beyond the end appends");
-    if (ins >= 1 && at == 0 && K >= 1) VWITNESS("insert in front");
+    if (ins >= 1 && at == 0) VWITNESS("insert in front");
+#else
+    if (bad && start == 0 && m >= 1) VWITNESS("insert into a NULL vector refused");
+#endif
 }
 #endif
 
